@@ -132,10 +132,6 @@ def run_path(mod, params, prefix, opts):
             rec['concrete_failures'] = [(lab, str(d)[:300] if d is not None else None) for lab, d in fails]
             if any(lab == cand.label for lab, _ in fails):
                 out['confirmed'].append(rec)
-            elif fails:
-                rec['label_symbolic'] = cand.label
-                rec['label'] = fails[0][0]
-                out['confirmed'].append(rec)
             else:
                 out['unconfirmed'].append(rec)
         except Exception as e:
